@@ -17,6 +17,10 @@ CHECKS = {
          "generated-input search + exhaustive small-scope enumeration of tampering: mutation of rPGP-built SEIPD containers (re-framed by an independent framer), oracle = stream must end in an error, zero bytes released in default SEIPDv1 mode, released bytes a prefix of the true plaintext for SEIPDv2; positive control on the unmodified container",
          "exploration; exhaustive over every single-bit flip and truncation offset of ~35 (thorough ~65) small messages (quick: every third byte position), sampled over bit flips, truncations, appends, AEAD chunk drop/dup/swap/rotate/truncation-attack/tag surgery, CFB block surgery, all header fields x all 256 values, x consumer patterns x SEIPDv1 read modes x opener (session key, password, recipient)",
          "assumes primitive forgery probabilities are unreachable; junk appended after an intact fixed-length container is only required not to yield wrong plaintext"),
+ "C04": ("DESIGN.md §4 C04",
+         "generated-input search with a crash oracle in isolated worker processes (2 MiB stacks, counting allocator, per-case watchdog): structure-aware hostile artifacts built by the independent reference so that they pass the cryptographic layer - PKESK v3/v6 to RSA, ECDH, X25519 and X448 recipients whose decrypted octets are enumerated, SEIPDv1/SEIPDv2/GnuPG-OCB containers valid under a known session key around hostile inner streams, SKESK/S2K/secret-key parameter octets - plus mutated fixtures and generated packet streams; oracle: every entry point returns, failures = panic (site), abort, stack overflow, failed allocation attributed to the case and last checkpoint",
+         "exploration; exhaustively enumerated: recipient kind (6) x PKESK version x first decrypted octet 0..255 x length class (quick 6 classes, thorough every length 0..40) each followed by SEIPDv1, GnuPG-OCB and SED containers; sampled: ~10k (thorough 300k) hostile containers (nests to depth 4000, 10^4 markers, thousands of prefixed signatures, truncations, bad partial and indeterminate lengths, SEIPDv2 header fields over all values), 3k (200k) hostile parameter sets (SKESK v4/v5/v6, S2K specifiers, secret-key protection fields, embedded signatures nested to 20000, damaged locked certificates), 20k (600k) mutated fixtures, 10k (300k) generated packet streams, each through PacketParser, Message open/decrypt (3 option sets)/decompress/read/verify/drop, key and signature import + verify_bindings + serialize + unlock, cleartext, dearmor, Any",
+         "a worker that makes no progress for 120 s is reported as inconclusive (exit 2), not as a violation; behaviour of accessors called on a message after its reader returned an error is not asserted; cannot show absence"),
  "C05": ("DESIGN.md §4 C05",
          "generated-input search with a differential/round-trip oracle: packet bodies generated field by field by an independent RFC 9580 encoder (every one-octet id from the listed values or 0..255, all length classes, canonical MPIs, all subpacket types incl. critical/unknown/embedded/long areas, every S2K usage and type), canonical framing; oracle on accepted values: byte-identical re-encoding, truthful write_len at body/packet/with-header level, header de-framed by an independent de-framer, parse(serialize(v)) == v; plus API-built and API-mutated objects",
          "exploration: ~60k (thorough 1.5M) generated packets over all packet types and versions + 4k (60k) API objects (certificates of 17 zoo keys incl. locked forms, set_password_with_s2k/remove_password with Cfb/Aead x S2K kinds, Subpacket::regular over multi-byte strings, unhashed subpacket edits, detached signatures, re-framed literal packets, every packet of serialized certificates)",
